@@ -41,7 +41,7 @@ def parseChunks (name : Bytes) (chunks : List Bytes) : Compiled :=
   -- the parser formats positions with the newlines of everything received;
   -- all of them below the position asked for are present at that time
   let r := parseTokens toks lfs
-  let pc := if r.ok then compileP r.prog else compileSs r.prog.body
+  let pc := if r.ok then compilePFast r.prog else compileSsAcc r.prog.body []
   let prog : Prog := { name, code := pc.map (·.1), consts := r.consts,
                        positions := pc.map (·.2), lfs := if r.ok then lfs else [] }
   let ops := countOpsSs r.prog.body + (if r.ok then (if r.prog.npop = 0 then 0 else 1) + 1 else 0)
@@ -53,7 +53,7 @@ def parseWhole (name : Bytes) (input : Bytes) : Compiled :=
   let toks := lexWhole input
   let lfs := newlinesFrom 0 input
   let r := parseTokens toks lfs
-  let pc := if r.ok then compileP r.prog else compileSs r.prog.body
+  let pc := if r.ok then compilePFast r.prog else compileSsAcc r.prog.body []
   let prog : Prog := { name, code := pc.map (·.1), consts := r.consts,
                        positions := pc.map (·.2), lfs := if r.ok then lfs else [] }
   let ops := countOpsSs r.prog.body + (if r.ok then (if r.prog.npop = 0 then 0 else 1) + 1 else 0)
